@@ -184,6 +184,15 @@ def _unroll_literal_loop(st):
     return out
 
 
+class _DictCalls(ast.NodeTransformer):
+    """`dict(a=1, b=x)` is the literal `{"a": 1, "b": x}` (keyword form only; `dict` not re-bound)."""
+    def visit_Call(self, n):
+        self.generic_visit(n)
+        if isinstance(n.func, ast.Name) and n.func.id == "dict" and not n.args and n.keywords and all(k.arg is not None for k in n.keywords):
+            return ast.copy_location(ast.Dict(keys=[ast.Constant(value=k.arg) for k in n.keywords], values=[k.value for k in n.keywords]), n)
+        return n
+
+
 class _AttrCalls(ast.NodeTransformer):
     """setattr(o, "name", v) as a statement -> o.name = v ;  getattr(o, "name") -> o.name   (constant, identifier-like names)."""
     def visit_Expr(self, st):
@@ -801,6 +810,251 @@ def inline_new_helpers_program(trees, known_by_rel):
     return total
 
 
+# ------------------------------------------------------------------------------------------------ P0 module constants
+_PURE_CONST_FUNCS = {"log", "sqrt", "exp", "log2", "log10", "float", "int", "abs", "pow", "sin", "cos", "tan", "arctan", "log1p", "expm1"}
+_PURE_CONST_NAMES = {"pi", "e", "inf", "nan", "euler_gamma"}
+
+
+def _const_expr(e, consts):
+    """An expression whose value is an immutable object fixed at import: literals, tuples of such, arithmetic on them, the
+    mathematical constants, elementary functions of them, and earlier constants."""
+    if isinstance(e, ast.Constant):
+        return not isinstance(e.value, bytes)
+    if isinstance(e, ast.Name):
+        return e.id in _PURE_CONST_NAMES or e.id in consts
+    if isinstance(e, ast.Attribute):
+        return isinstance(e.value, ast.Name) and e.value.id in ("np", "numpy", "math") and e.attr in _PURE_CONST_NAMES
+    if isinstance(e, ast.UnaryOp):
+        return isinstance(e.op, (ast.USub, ast.UAdd)) and _const_expr(e.operand, consts)
+    if isinstance(e, ast.BinOp):
+        return _const_expr(e.left, consts) and _const_expr(e.right, consts)
+    if isinstance(e, ast.Tuple):
+        return all(_const_expr(x, consts) for x in e.elts)
+    if isinstance(e, ast.Call) and not e.keywords:
+        f = e.func
+        nm = f.id if isinstance(f, ast.Name) else f.attr if isinstance(f, ast.Attribute) and isinstance(f.value, ast.Name) \
+            and f.value.id in ("np", "numpy", "math") else None
+        return nm in _PURE_CONST_FUNCS and all(_const_expr(a, consts) for a in e.args)
+    return False
+
+
+def inline_module_constants(tree, known_names=None):
+    """P0: a private module-level name bound once to an immutable constant expression (`_STEP = 1e-5`, `_LOG_2PI = log(2 * pi)`,
+    `_MODES = ("a", "b")`) is replaced by that expression wherever the module reads it (not where a function re-binds the name
+    locally).  Reading a constant through a name or writing it in place is the same program."""
+    consts = {}
+    stores = {}
+    for n in ast.walk(tree):
+        if isinstance(n, ast.Name) and isinstance(n.ctx, (ast.Store, ast.Del)):
+            stores[n.id] = stores.get(n.id, 0) + 1
+        elif isinstance(n, (ast.Global, ast.Nonlocal)):
+            for nm in n.names:
+                stores[nm] = stores.get(nm, 0) + 2
+    for st in tree.body:
+        if isinstance(st, ast.Assign) and len(st.targets) == 1 and isinstance(st.targets[0], ast.Name):
+            nm = st.targets[0].id
+            if nm.startswith("_") and not nm.startswith("__") and stores.get(nm, 0) == 1 and _const_expr(st.value, consts):
+                consts[nm] = st.value
+    if not consts:
+        return 0
+    # expand constants defined through earlier constants
+    for nm in list(consts):
+        consts[nm] = _Subst({k: v for k, v in consts.items() if k != nm}).visit(copy.deepcopy(consts[nm]))
+    count = [0]
+
+    class V(ast.NodeTransformer):
+        def visit_FunctionDef(self, fn):
+            params = {a.arg for a in fn.args.args + fn.args.kwonlyargs + fn.args.posonlyargs}
+            if fn.args.vararg:
+                params.add(fn.args.vararg.arg)
+            if fn.args.kwarg:
+                params.add(fn.args.kwarg.arg)
+            self.shadow.append(params)
+            self.generic_visit(fn)
+            self.shadow.pop()
+            return fn
+
+        def visit_Lambda(self, fn):
+            self.shadow.append({a.arg for a in fn.args.args})
+            self.generic_visit(fn)
+            self.shadow.pop()
+            return fn
+
+        def visit_Name(self, n):
+            if isinstance(n.ctx, ast.Load) and n.id in consts and not any(n.id in sh for sh in self.shadow):
+                count[0] += 1
+                return ast.copy_location(copy.deepcopy(consts[n.id]), n)
+            return n
+    v = V()
+    v.shadow = []
+    for st in tree.body:
+        if isinstance(st, ast.Assign) and len(st.targets) == 1 and isinstance(st.targets[0], ast.Name) and st.targets[0].id in consts:
+            continue
+        v.visit(st)
+    if count[0]:
+        tree.body = [st for st in tree.body if not (isinstance(st, ast.Assign) and len(st.targets) == 1
+                                                   and isinstance(st.targets[0], ast.Name) and st.targets[0].id in consts)]
+        ast.fix_missing_locations(tree)
+    return count[0]
+
+
+# ------------------------------------------------------------------------------------------------ P0b numpy spellings
+_METHOD_FORM = {"sum", "any", "all", "cumsum", "prod"}
+
+
+def numpy_spellings(tree):
+    """P0b: `import numpy as np; np.f(x)` is read as `from numpy import f; f(x)` (when no other binding of `f` exists in the
+    module), and the function form of a reduction - `np.sum(x, axis=1)`, `sum(x)` with numpy's sum imported, `np.any(c)` - as
+    the method form `x.sum(axis=1)`, `c.any()`; `transpose(x)` as `x.T`.  (For ndarrays these are the same operations; the
+    repository itself only uses the method forms, so the rules are written against those.)"""
+    aliases = set()
+    from_numpy = {}         # local name -> numpy function name
+    for st in tree.body:
+        if isinstance(st, ast.Import):
+            for a in st.names:
+                if a.name == "numpy":
+                    aliases.add(a.asname or "numpy")
+        elif isinstance(st, ast.ImportFrom) and st.module == "numpy" and st.level == 0:
+            for a in st.names:
+                from_numpy[a.asname or a.name] = a.name
+    bound = set()
+    for n in ast.walk(tree):
+        if isinstance(n, ast.Name) and isinstance(n.ctx, (ast.Store, ast.Del)):
+            bound.add(n.id)
+        elif isinstance(n, ast.arg):
+            bound.add(n.arg)
+        elif isinstance(n, (ast.FunctionDef, ast.ClassDef)):
+            bound.add(n.name)
+        elif isinstance(n, (ast.Import, ast.ImportFrom)):
+            for a in n.names:
+                if not (isinstance(n, ast.ImportFrom) and n.module == "numpy"):
+                    bound.add((a.asname or a.name).split(".")[0])
+    BUILTIN_CLASH = {"sum", "any", "all", "max", "min", "abs", "round", "pow", "divmod", "bool", "int", "float", "complex", "object", "str"}
+    added = set()
+    count = [0]
+
+    class V(ast.NodeTransformer):
+        def visit_Call(self, n):
+            self.generic_visit(n)
+            f = n.func
+            nm = None
+            if isinstance(f, ast.Attribute) and isinstance(f.value, ast.Name) and f.value.id in aliases:
+                nm = f.attr
+            elif isinstance(f, ast.Name) and f.id in from_numpy and f.id not in bound:
+                nm = from_numpy[f.id]
+            if nm in _METHOD_FORM and n.args and not isinstance(n.args[0], ast.Starred):
+                count[0] += 1
+                recv = n.args[0]
+                kws = list(n.keywords)
+                rest = list(n.args[1:])
+                if rest and nm in ("sum", "any", "all", "cumsum", "prod") and not any(k.arg == "axis" for k in kws):
+                    kws = [ast.keyword(arg="axis", value=rest[0])] + kws
+                    rest = rest[1:]
+                return ast.copy_location(ast.Call(func=ast.Attribute(value=recv, attr=nm, ctx=ast.Load()), args=rest, keywords=kws), n)
+            if nm == "transpose" and len(n.args) == 1 and not n.keywords:
+                count[0] += 1
+                return ast.copy_location(ast.Attribute(value=n.args[0], attr="T", ctx=ast.Load()), n)
+            return n
+
+        def visit_Name(self, n):
+            # numpy.newaxis is None
+            if isinstance(n.ctx, ast.Load) and from_numpy.get(n.id) == "newaxis" and n.id not in bound:
+                count[0] += 1
+                return ast.copy_location(ast.Constant(value=None), n)
+            return n
+
+        def visit_Attribute(self, n):
+            self.generic_visit(n)
+            if isinstance(n.value, ast.Name) and n.value.id in aliases and n.attr == "newaxis":
+                count[0] += 1
+                return ast.copy_location(ast.Constant(value=None), n)
+            if isinstance(n.value, ast.Name) and n.value.id in aliases and isinstance(n.ctx, ast.Load) \
+                    and n.attr not in bound and n.attr not in BUILTIN_CLASH and not n.attr.startswith("_") \
+                    and n.attr not in ("random", "linalg", "fft", "ma", "testing", "polynomial"):
+                if n.attr not in from_numpy:
+                    added.add(n.attr)
+                count[0] += 1
+                return ast.copy_location(ast.Name(id=n.attr, ctx=ast.Load()), n)
+            return n
+    if not aliases and not (set(from_numpy.values()) & (_METHOD_FORM | {"transpose", "newaxis"})):
+        return 0
+    V().visit(tree)
+    if added:
+        imp = ast.ImportFrom(module="numpy", names=[ast.alias(name=a, asname=None) for a in sorted(added)], level=0)
+        k = 0
+        while k < len(tree.body) and (isinstance(tree.body[k], (ast.Import, ast.ImportFrom)) or (
+                isinstance(tree.body[k], ast.Expr) and isinstance(tree.body[k].value, ast.Constant))):
+            k += 1
+        imp.lineno = tree.body[k - 1].lineno if k else 1
+        imp.col_offset = 0
+        tree.body.insert(k, imp)
+    if count[0]:
+        ast.fix_missing_locations(tree)
+    return count[0]
+
+
+# ------------------------------------------------------------------------------------------------ P4d new read-only properties
+def inline_new_properties(trees, known_by_rel):
+    """A property the reference does not know, without a setter, whose body is `return <expression of self>`, is an abbreviation:
+    `self.name` is replaced by the expression in the methods of the class (and of its subclasses in the program)."""
+    n = 0
+    bases = {}
+    for tree in trees.values():
+        for st in tree.body:
+            if isinstance(st, ast.ClassDef):
+                bases[st.name] = [ast.unparse(b).split(".")[-1] for b in st.bases]
+
+    def derives(c, base):
+        seen, todo = set(), [c]
+        while todo:
+            k = todo.pop()
+            if k == base:
+                return True
+            if k in seen:
+                continue
+            seen.add(k)
+            todo.extend(bases.get(k, []))
+        return False
+    props = []
+    for rel, tree in trees.items():
+        known = known_by_rel.get(rel)
+        if known is None:
+            continue
+        for cls in [st for st in tree.body if isinstance(st, ast.ClassDef)]:
+            setters = {ast.unparse(d).split(".")[0] for m in cls.body if isinstance(m, ast.FunctionDef) for d in m.decorator_list
+                       if ast.unparse(d).endswith(".setter")}
+            for m in list(cls.body):
+                if isinstance(m, ast.FunctionDef) and [ast.unparse(d) for d in m.decorator_list] == ["property"] \
+                        and f"{cls.name}.{m.name}" not in known and m.name not in setters and len(m.args.args) == 1:
+                    body = [s_ for s_ in m.body if not (isinstance(s_, ast.Expr) and isinstance(s_.value, ast.Constant))]
+                    if len(body) == 1 and isinstance(body[0], ast.Return) and body[0].value is not None \
+                            and not any(isinstance(x, (ast.Call, ast.Yield, ast.Await, ast.Lambda)) and not (
+                                isinstance(x, ast.Call) and ast.unparse(x.func) in ("len", "int", "float", "abs", "min", "max"))
+                                for x in ast.walk(body[0].value)):
+                        props.append((cls, m, m.args.args[0].arg, body[0].value))
+    for cls, m, sn, expr in props:
+        for tree in trees.values():
+            for c2 in [st for st in tree.body if isinstance(st, ast.ClassDef) and derives(st.name, cls.name)]:
+                for meth in [x for x in c2.body if isinstance(x, ast.FunctionDef) and x is not m and x.args.args]:
+                    sn2 = meth.args.args[0].arg
+
+                    class V(ast.NodeTransformer):
+                        def visit_Attribute(self, node):
+                            self.generic_visit(node)
+                            if node.attr == m.name and isinstance(node.value, ast.Name) and node.value.id == sn2 and isinstance(node.ctx, ast.Load):
+                                return ast.copy_location(_Subst({sn: ast.Name(id=sn2, ctx=ast.Load())}).visit(copy.deepcopy(expr)), node)
+                            return node
+                    before = ast.dump(meth)
+                    V().visit(meth)
+                    if ast.dump(meth) != before:
+                        n += 1
+        if m in cls.body:
+            cls.body.remove(m)
+    for tree in trees.values():
+        ast.fix_missing_locations(tree)
+    return n
+
+
 # ------------------------------------------------------------------------------------------------ P4c iterator helpers
 def _iterator_form(fn):
     """A helper that only produces a sequence:  `for T in IT: [if C:] yield E`,  `return [E for T in IT if C]`,
@@ -1381,10 +1635,16 @@ def canonicalise(tree, known_functions=None):
 def canonicalise_program(trees, known_by_rel, params_by_rel=None):
     """P1-P4 over every parsed module; P4 sees the whole program (helpers inherited across files)."""
     for rel, tree in trees.items():
+        inline_module_constants(tree)
+        numpy_spellings(tree)
         _Polarity().visit(tree)
         tree.body = _restructure(tree.body)
         _AttrCalls().visit(tree)
+        if not any(isinstance(x, ast.Name) and x.id == "dict" and isinstance(x.ctx, ast.Store) for x in ast.walk(tree)):
+            _DictCalls().visit(tree)
+            ast.fix_missing_locations(tree)
         rename_private_functions(tree, known_by_rel.get(rel), (params_by_rel or {}).get(rel))
+    inline_new_properties(trees, known_by_rel)
     n_inl = inline_iterator_helpers_program(trees, known_by_rel)
     n_inl += inline_new_helpers_program(trees, known_by_rel)
     for rel, tree in trees.items():
